@@ -20,7 +20,7 @@ ASSUMPTIONS = ['the unpickling policy is whatever the installed torch enforces (
 REQUIRED_REACH = ['_extras:save', '_extras:load', '_tt_base:TT.clone', '_tt_base:TT.detach', '_tt_base:TT.cpu', '_tt_base:TT.to', '_tt_base:TT.numpy']
 REQUIRED_COUNTS = {'op:saveload': 1, 'op:clone': 1, 'clone_independence_histories': 20, 'op:detach': 1, 'op:cpu': 1, 'op:to': 1, 'op:numpy': 1, 'source:svd': 1, 'source:slice': 1, 'source:transpose': 1,
                    'source:round': 1, 'source:buffer': 5, 'loaded_cores_bit_identical': 10}
-SOURCES = ['cores', 'svd', 'svd_ttm', 'slice', 'transpose', 'conj', 'round', 'sum', 'buffer']
+SOURCES = ['cores', 'svd', 'svd_ttm', 'slice', 'transpose', 'conj', 'round', 'sum', 'buffer', 'signed-zeros']
 OPS = ['saveload', 'clone', 'detach', 'detach_tracked', 'cpu', 'to', 'numpy']
 DTS = ['f64', 'f32', 'c128', 'c64']
 
@@ -62,6 +62,18 @@ def build(case, ctx, g):
         if case['seed'] % 2 == 0 and d >= 3:
             N, M, R = [N[0]] * d, [M[0]] * d, [1] + [R[1]] * (d - 1) + [1]
         return torchtt.TT(gens.buffer_views(gens.make_cores(N, R, dt, 'gauss', g, M=M if ttm else None)))
+    if src == 'signed-zeros':
+        # cores that contain +0.0 and -0.0 entries (what -eye(..), diag(x) or 0 - x produce): equal as values, different as bits
+        cs_ = gens.make_cores(N, R, dt, 'gauss', g, M=M if ttm else None)
+        out_ = []
+        for c in cs_:
+            m1 = torch.rand(c.shape, generator=g) < 0.25
+            m2 = torch.rand(c.shape, generator=g) < 0.25
+            c = c.clone()
+            c[m1] = 0.0
+            c[m2] = -0.0 if not c.is_complex() else complex(-0.0, -0.0)
+            out_.append(c)
+        return torchtt.TT(out_)
     base = gens.make_tt(N, R, dt, 'gauss', g, M=M if ttm else None)
     if src == 'cores':
         return base
@@ -128,7 +140,7 @@ def run_case(case, ctx):
         if meta1 != meta0:
             ctx.viol(key + '/clause=metadata', '%s: before %s after %s' % (what, meta0, meta1))
             return
-        if not all(torch.equal(a, b) for a, b in zip(cores0, y.cores)):
+        if not all(_bits_identical(a, b) for a, b in zip(cores0, y.cores)):
             ctx.viol(key + '/clause=cores-not-bit-identical', what)
             return
         ctx.count('loaded_cores_bit_identical')
@@ -219,6 +231,14 @@ def run_case(case, ctx):
         if err > 1e3 * u * dn.s_rep(x):
             ctx.viol(key + '/clause=value', '%s: err %.3e' % (what, err))
     ctx.nontrivial((case['source'], op, _sig(x), case['to_dtype'] if op == 'to' else ''))
+
+
+def _bits_identical(a, b):
+    """same dtype, shape and BYTES (signed zeros and NaN payloads included)"""
+    if a.dtype != b.dtype or a.shape != b.shape:
+        return False
+    a, b = a.detach().resolve_conj().reshape(-1).clone(), b.detach().resolve_conj().reshape(-1).clone()
+    return torch.equal(a.view(torch.uint8), b.view(torch.uint8)) if a.numel() else True
 
 
 def _same_cores(a, b):
